@@ -1104,6 +1104,11 @@ func (c *Conn) readHandshake(transcript transcriptHash) (interface{}, error) {
 			// 消息被分片，存到 pendingFragments 中
 			msgSeq := uint16(data[4])<<8 | uint16(data[5])
 			fb, exists := c.pendingFragments[msgSeq]
+			if exists && int(fb.totalLen) != bodyLen {
+				// 同一 message_seq 的分片必须声明相同的消息总长度
+				c.sendAlertLocked(alertDecodeError)
+				return nil, c.in.setErrorLocked(fmt.Errorf("dtlcp: fragment length mismatch: message_seq %d announced %d bytes, now %d", msgSeq, fb.totalLen, bodyLen))
+			}
 			if !exists {
 				fb = newFragmentBuffer(uint24(bodyLen))
 				c.pendingFragments[msgSeq] = fb
